@@ -1,22 +1,82 @@
-// Package sync is a drop-in shim for the parts of sync used by biogo/hts.
+// Package sync is the drop-in shim for the parts of package sync used by bgzf and bgzf/cache:
+// virtual under the scheduler, the real primitives in pass-through mode.
 package sync
 
-import "github.com/biogo/hts/vsched"
+import (
+	gosync "sync"
+
+	"github.com/biogo/hts/vsched"
+)
 
 type Mutex struct{ rw RWMutex }
 
 func (m *Mutex) Lock()   { m.rw.Lock() }
 func (m *Mutex) Unlock() { m.rw.Unlock() }
 
-type RWMutex struct{ st vsched.RWState }
+type RWMutex struct {
+	real gosync.RWMutex
+	st   vsched.RWState
+}
 
-func (m *RWMutex) Lock()    { vsched.RWLock(&m.st) }
-func (m *RWMutex) Unlock()  { vsched.RWUnlock(&m.st) }
-func (m *RWMutex) RLock()   { vsched.RWRLock(&m.st) }
-func (m *RWMutex) RUnlock() { vsched.RWRUnlock(&m.st) }
+func (m *RWMutex) Lock() {
+	if vsched.Active() {
+		vsched.RWLock(&m.st)
+	} else {
+		m.real.Lock()
+	}
+}
+func (m *RWMutex) Unlock() {
+	if vsched.Active() {
+		vsched.RWUnlock(&m.st)
+	} else {
+		m.real.Unlock()
+	}
+}
+func (m *RWMutex) RLock() {
+	if vsched.Active() {
+		vsched.RWRLock(&m.st)
+	} else {
+		m.real.RLock()
+	}
+}
+func (m *RWMutex) RUnlock() {
+	if vsched.Active() {
+		vsched.RWRUnlock(&m.st)
+	} else {
+		m.real.RUnlock()
+	}
+}
 
-type WaitGroup struct{ st vsched.WGState }
+type WaitGroup struct {
+	real gosync.WaitGroup
+	st   vsched.WGState
+}
 
-func (w *WaitGroup) Add(n int) { vsched.WGAdd(&w.st, n) }
-func (w *WaitGroup) Done()     { vsched.WGAdd(&w.st, -1) }
-func (w *WaitGroup) Wait()     { vsched.WGWait(&w.st) }
+func (w *WaitGroup) Add(n int) {
+	if vsched.Active() {
+		vsched.WGAdd(&w.st, n)
+	} else {
+		w.real.Add(n)
+	}
+}
+func (w *WaitGroup) Done() { w.Add(-1) }
+func (w *WaitGroup) Wait() {
+	if vsched.Active() {
+		vsched.WGWait(&w.st)
+	} else {
+		w.real.Wait()
+	}
+}
+
+type Once struct {
+	real gosync.Once
+	st   vsched.OnceState
+}
+
+func (o *Once) Do(f func()) {
+	if vsched.Active() {
+		vsched.OnceDo(&o.st, f)
+	} else {
+		o.real.Do(f)
+	}
+}
